@@ -72,6 +72,8 @@ JOBS = [
     # byte update at a symbolic offset into an array of structs and the SAT back end runs out of memory (8 GB)
     # => the loop is unwound for <= 2 columns instead; everything else (sizes, counters, capacities) is symbolic.
     dict(name='c18_flush_row_group_b', entry='h_flush_row_group', functions=['flush_row_group'], est_s=40, **BND, **W),
+    dict(name='c19_ensure_row_group_b', entry='h_ensure_row_group', functions=['ensure_row_group'], est_s=30,
+         **BND, **dict(W, prop='C19')),
     dict(name='c18_new_row_group_b', entry='h_new_row_group',
          functions=['carquet_writer_new_row_group', 'ensure_header_written', 'flush_row_group'], est_s=45, **BND, **W),
     # found: carquet_writer_close ignored fflush()/fclose() results (returned OK on /dev/full); repaired upstream in
